@@ -1,5 +1,7 @@
 import SvModel.Props.C01
 import SvModel.Core.Pp
+import SvModel.Lemmas.Walker
+import SvModel.Gen.PpKinds
 /-!
 # C06 — directive-free text passes through unchanged (proved part: the preprocessor's parse is lossless)
 
@@ -7,7 +9,9 @@ import SvModel.Core.Pp
 Proved here, on the grammar regenerated from /repo: whenever that parse succeeds, the leaves of the tree tile the
 WHOLE input (so the verbatim-copy arms of the walker can reproduce it byte for byte). The walker itself
 (`Core/Pp.lean`) is tied to the code by the correspondence run; its identity on directive-free trees is checked by
-the oracle on the implementation and by the correspondence, not yet stated as a theorem (see DESIGN.md).
+the oracle on the implementation and by the correspondence AND, below, proved: `C06_identity` — on a tree without directive nodes and without trailing trivia after a
+string / escaped identifier (the shape the grammar gives to directive-free, D4-free text) `preprocess_str` returns the input
+byte for byte, the caller's define table (plus the SV_COV seeds), and origin(i) = (path, i) for every i.
 -/
 namespace Sv
 open Sv.Gen
@@ -36,5 +40,46 @@ theorem C06_pp_leaves_concat (inp : Input) (st st' : PState) (fuel q : Nat) (r :
     leafBytes inp (leavesL ts) = sliceBytes inp 0 inp.size := by
   have := (C06_pp_parse_lossless inp st st' fuel q r ts h).2
   simpa using C01_concat_leaves inp 0 inp.size (leavesL ts) this
+
+/-- the facts about kind numbers the walker theorems need hold for the kinds regenerated from /repo -/
+theorem ppKinds_ok : KindsOK ppKinds := by
+  constructor <;> decide
+
+theorem ppKinds_ppText : ppKinds.ppText = idx_preprocessor_text := by decide
+
+/-- **C06, identity clause.** Let the preprocessor's own parse of `s` (grammar regenerated from /repo) return a tree
+    `PreprocessorText [sd₁ … sdₙ]` in which every `sdᵢ` is plain: a non-directive run, a comment, or a string literal / escaped
+    identifier WITHOUT trailing trivia (the excluded shape is the known finding D4). Then, for every path, caller define
+    table, file system, include-path list, value of `ignore_include`, with `strip_comments` off, `preprocess_str` succeeds and
+    * the output text is the input, byte for byte,
+    * every output offset maps to the same offset of `path`,
+    * the returned define table is the seeded table (nothing was defined or undefined).
+    Unbounded: all inputs of that shape, all lengths; `fuel` only has to cover the number of events. -/
+theorem C06_identity (fs : Fs) (incs : List Bytes) (s path : Bytes) (d : Defines) (ii : Bool) (rd id : Nat) (hid : id ≤ recursiveLimit)
+    (fuel q : Nat) (r : Rec) (kpp : Nat) (sds : List Tree) (st' : PState)
+    (hparse : ppParse (toInput s) {} (4000 + 400 * (toInput s).size) = (.ok q r [.node kpp sds], st'))
+    (hpp : inert ppKinds (.node kpp sds) = true) (hplain : ∀ t ∈ sds, PlainSD ppKinds t)
+    (hfuel : 6 * sds.length + 4 ≤ fuel) :
+    ∃ out dd, preprocessStr ⟨ppKinds, grammar, fs, incs⟩ fuel s path d ii false rd id = .ok (out, dd) ∧
+      out.text = sliceBytes (toInput s) 0 (toInput s).size ∧
+      (∀ i, i < out.text.length → out.origin i = some (path, i)) ∧
+      dd = (d.reverse.foldl (fun (t : Defines) (kv : Bytes × Option Define) => t.insert kv.1 kv.2)
+        (svCovDefines.foldl (fun (t : Defines) (kv : String × String) =>
+          t.insert (bstr kv.1) (some { ident := bstr kv.1, args := [], text := some { text := bstr kv.2, origin := none } })) ([] : Defines))) := by
+  obtain ⟨f, rfl⟩ : ∃ f, fuel = (f + 6 * sds.length + 3) + 1 := ⟨fuel - (6 * sds.length + 4), by omega⟩
+  have hl := (C06_pp_parse_lossless (toInput s) {} st' _ q r _ hparse).2
+  unfold ppParse at hparse
+  have hchain : Chain (toInput s) 0 (leavesL sds) (toInput s).size := by
+    simpa [TilesF, leavesL, leaves] using hl
+  have hidn : ¬ (id > recursiveLimit) := by omega
+  refine ⟨copyOut (toInput s) path {} (leavesL sds), _, ?_, ?_, ?_, rfl⟩
+  · unfold preprocessStr
+    simp only [hidn, if_false, ppKinds_ppText, hparse]
+    rw [walk_plain_tree ⟨ppKinds, grammar, fs, incs⟩ ppKinds_ok f (toInput s) s path ii rd id kpp sds hpp hplain _
+      ⟨rfl, rfl, rfl, rfl⟩]
+  · have := (copyOut_chain (toInput s) path (leavesL sds) {} 0 (toInput s).size ⟨tiled_empty, by simp⟩ rfl hchain).2
+    simpa using this
+  · intro i hi
+    exact idOut_origin path _ (copyOut_chain (toInput s) path (leavesL sds) {} 0 (toInput s).size ⟨tiled_empty, by simp⟩ rfl hchain).1 i hi
 
 end Sv
